@@ -11,9 +11,10 @@ def init() -> None:
     replacements.init()
 
 
-def render(source: str, nesting: int = 0) -> str:
-    '''Render source; nesting is the number of line macro expansions around it (the content of a container block).'''
-    reader = io.Reader(source, nesting)
+def render(source: str, nesting: int = 0, level: int = 0) -> str:
+    '''Render source; nesting and level are the numbers of line macro expansions and of container blocks around it
+       (the content of a container block).'''
+    reader = io.Reader(source, nesting, level)
     writer = io.Writer()
     while not reader.eof():
         reader.skipBlankLines()
